@@ -1385,6 +1385,19 @@ def _search_results_resolve(F, s, e):
     return ok, ("registry names are resolved through Registry::lookup" if ok else "no Registry::lookup call found in the search closure")
 
 
+def _duration_list_six(F, s, e):
+    """The automatic duration breakdown takes as many parts from to_list's result as it put names into the list."""
+    from facts import hir_walk
+    fn = s.fn
+    h = F.hir_of(fn)
+    arrays = [n for n in hir_walk(h["body"]) if n.get("k") == "Array" and len(n["elems"]) >= 4 and all(x.get("k") == "Lit" and x["lit"].get("lit") == "str" for x in n["elems"])]
+    names = [[x["lit"].get("v") for x in n["elems"]] for n in arrays]
+    dur = [nm for nm in names if "second" in nm and "year" in nm]
+    takes = [t for _, t in fn.calls() if "callee" in t and t["callee"]["path"].endswith("Option::<T>::expect") and "IntoIter" in ap_str(fn.apath(t["args"][0])) and "::next(" in ap_str(fn.apath(t["args"][0]))]
+    ok = len(dur) == 1 and len(takes) == len(dur[0])
+    return ok, ("%d parts are taken from a list of %d names" % (len(takes), len(dur[0]) if dur else 0))
+
+
 def _symbol_invariant(F, s, e):
     """Every symbol in substance_symbols names a registered substance: the C16 rule, evaluated here as a backing."""
     import core
@@ -1412,6 +1425,7 @@ def _operands_reset_to_one(F, s, e):
 
 
 BACKING = {
+    "duration_list_six": _duration_list_six,
     "search_results_resolve": _search_results_resolve,
     "symbol_invariant": _symbol_invariant,
     "prettified_twin_divided": _prettified_twin_divided,
